@@ -222,7 +222,11 @@ def iterate (limit : Option Nat) : M (List Nat) := do
       closeCursors cs'
       return out
   else
-    return s.stash.mergeSort (fun a b => a ≤ b)
+    -- nothing was spilled: sort in memory (no I/O); the consumer may stop early
+    let out := s.stash.mergeSort (fun a b => a ≤ b)
+    return match limit with
+      | some j => out.take j
+      | none => out
 
 /-- `sorter.close()` -/
 def close : M Unit := do
